@@ -763,3 +763,53 @@ T("C02", "twin-local-variable", (MAT, """def phase_matrix(angle):
     unused_half = angle / 2
     return sympy.Matrix("""))
 T("C02", "twin-u3-phase-multiplied", (MAT, "        / sympy.exp(-0.5j * (phi + lambda_))", "        * sympy.exp(0.5j * (phi + lambda_))"))
+
+# ----------------------------------------------------------------------------- C03
+B("C03", "coeff-map-sign", (OPS, '    "YZ": 1.0j,', '    "YZ": -1.0j,'), rule="C03-D1")
+B("C03", "operator-map-swapped-values", (OPS, '    ord("X") + ord("Y"): "Z",\n    ord("Y") + ord("Z"): "X",', '    ord("X") + ord("Y"): "X",\n    ord("Y") + ord("Z"): "Z",'), rule="C03-D1")
+B("C03", "coeff-map-missing-entry", (OPS, '    "ZX": 1.0j,\n', ''), rule="C03-D1")
+B("C03", "phase-key-swapped", (OPS, "result_coeff *= COEFF_MAP[self[index] + op]", "result_coeff *= COEFF_MAP[op + self[index]]"), rule="C03-D2")
+B("C03", "phase-overwrites", (OPS, "result_coeff *= COEFF_MAP[self[index] + op]", "result_coeff = COEFF_MAP[self[index] + op]"), rule="C03-D2")
+B("C03", "equal-ops-keep-phase", (OPS, "            # Case 2: equal operators cancel\n            del result_ops[index]", "            # Case 2: equal operators cancel\n            del result_ops[index]\n            result_coeff *= COEFF_MAP.get(op + op, -1.0)"), rule="C03-D2")
+B("C03", "mul-accumulates-on-other", (OPS, "            result_term = self.copy(new_coefficient=1)\n\n            for op, index in other:", "            result_term = other.copy(new_coefficient=1)\n\n            for op, index in self:"), rule="C03-D2")
+B("C03", "mul-coefficient-twice", (OPS, "            result_term = self.copy(new_coefficient=1)", "            result_term = self.copy()"), rule="C03-D2")
+B("C03", "mul-drops-other-coefficient", (OPS, "            new_coeff = self.coefficient * other.coefficient", "            new_coeff = self.coefficient"), rule="C03-D2")
+B("C03", "sum-mul-product-swapped", (OPS, "for left_term, right_term in product(self.terms, other_terms)", "for left_term, right_term in product(other_terms, self.terms)"), rule="C03-D2")
+B("C03", "sum-mul-right-times-left", (OPS, "                    left_term * right_term\n", "                    right_term * left_term\n"), rule="C03-D2")
+B("C03", "term-rsub-sign", (OPS, "    def __rsub__(self, other: Union[PauliRepresentation, complex]) -> \"PauliSum\":\n        return other + -1.0 * self", "    def __rsub__(self, other: Union[PauliRepresentation, complex]) -> \"PauliSum\":\n        return self + -1.0 * other"), rule="C03-D3")
+B("C03", "sum-rsub-sign", (OPS, "    def __rsub__(self, other: complex) -> \"PauliSum\":\n        return other + -1.0 * self", "    def __rsub__(self, other: complex) -> \"PauliSum\":\n        return -1.0 * other + self"), rule="C03-D3")
+B("C03", "term-truediv-multiplies", (OPS, "        result = self * (1.0 / other)\n        assert isinstance(result, PauliTerm)", "        result = self * (1.0 * other)\n        assert isinstance(result, PauliTerm)"), rule="C03-D3")
+B("C03", "term-radd-drops-self", (OPS, "    def __radd__(self, other: complex) -> \"PauliSum\":\n        return self + PauliTerm(\"I0\", other)", "    def __radd__(self, other: complex) -> \"PauliSum\":\n        return PauliSum([PauliTerm(\"I0\", other)])"), rule="C03-D3")
+B("C03", "sum-add-drops-right-terms", (OPS, "for term in chain(self.terms, other.terms)]", "for term in chain(self.terms, self.terms)]"), rule="C03-D3")
+B("C03", "sum-add-filters-constants", (OPS, "for term in chain(self.terms, other.terms)]", "for term in chain(self.terms, other.terms) if not term.is_constant]"), rule="C03-D3")
+B("C03", "sum-rmul-squares", (OPS, "new_terms = [cast(PauliTerm, term.copy() * other) for term in self.terms]", "new_terms = [cast(PauliTerm, term.copy() * other * other) for term in self.terms]"), rule="C03-D3")
+B("C03", "term-scalar-mul-adds", (OPS, "        return self.copy(self.coefficient * complex(other))", "        return self.copy(self.coefficient + complex(other))"), rule="C03-D3")
+B("C03", "term-times-sum-swapped", (OPS, "            return (PauliSum([self]) * other).simplify()", "            return (other * PauliSum([self])).simplify()"), rule="C03-D3")
+B("C03", "delete-sum-rmul", (OPS, "    def __rmul__(self, other: complex) -> \"PauliSum\":\n        assert isinstance(other, (int, float, complex))\n\n        new_terms = [cast(PauliTerm, term.copy() * other) for term in self.terms]\n\n        return PauliSum(new_terms).simplify()\n", ""), rule="C03-D4")
+B("C03", "pow-accepts-negative", (OPS, "        if not isinstance(power, int) or power < 0:\n            raise ValueError(\"The power must be a non-negative integer.\")", "        if not isinstance(power, int):\n            raise ValueError(\"The power must be a non-negative integer.\")"), rule="C03-D4")
+B("C03", "pow-rejects-zero", (OPS, "        if not isinstance(power, int) or power < 0:\n            raise ValueError(f\"Power must be", "        if not isinstance(power, int) or power <= 0:\n            raise ValueError(f\"Power must be"), rule="C03-D4")
+B("C03", "exponentiation-odd-branch", (OPS, "        return pauli_rep * _efficient_exponentiation(pauli_rep, power - 1)", "        return pauli_rep * _efficient_exponentiation(pauli_rep, power - 2)"), rule="C03-D4")
+B("C03", "exponentiation-halves-wrong", (OPS, "    intermediate_result = _efficient_exponentiation(pauli_rep, power // 2)\n    return intermediate_result * intermediate_result", "    intermediate_result = _efficient_exponentiation(pauli_rep, power // 2)\n    return intermediate_result * pauli_rep"), rule="C03-D4")
+B("C03", "identity-has-coefficient-two", (OPS, "        return PauliTerm(\"I0\", 1.0)", "        return PauliTerm(\"I0\", 2.0)"), rule="C03-D4")
+B("C03", "simplify-groups-by-qubits", (OPS, "            key = term.operations\n            if key in like_terms:", "            key = frozenset(term.qubits)\n            if key in like_terms:"), rule="C03-D5")
+B("C03", "simplify-order-dependent-key", (OPS, "            key = term.operations\n            if key in like_terms:", "            key = tuple(term._ops.items())\n            if key in like_terms:"), rule="C03-D5")
+B("C03", "simplify-sums-first-two", (OPS, "                coeff = sum(t.coefficient for t in term_list)", "                coeff = sum(t.coefficient for t in term_list[:2])"), rule="C03-D5")
+B("C03", "simplify-loose-tolerance", (OPS, "                if not np.isclose(coeff, 0.0):  # type: ignore", "                if not np.isclose(coeff, 0.0, atol=1e-4):  # type: ignore"), rule="C03-D")
+B("C03", "simplify-drops-duplicates", (OPS, "            if key in like_terms:\n                like_terms[key].append(term)\n            else:", "            if key in like_terms:\n                continue\n            else:"), rule="C03-D5")
+B("C03", "sum-eq-order-sensitive", (OPS, "        return set(self.terms) == set(other.terms)", "        return list(self.terms) == list(other.terms)"), rule="C03-D6")
+B("C03", "term-eq-ignores-operators", (OPS, "        return np.allclose(self.coefficient, cast_other.coefficient) and (\n            np.allclose(self.coefficient, 0) or self.operations == cast_other.operations\n        )", "        return np.allclose(self.coefficient, cast_other.coefficient)"), rule="C03-D6")
+B("C03", "mul-mutates-other-memo", (OPS, "            new_coeff = self.coefficient * other.coefficient", "            other.coefficient = complex(other.coefficient)\n            new_coeff = self.coefficient * other.coefficient"), rule="C03-D7")
+T("C03", "twin-reorder-coeff-map", (OPS, '    "XY": 1.0j,\n    "XZ": -1.0j,', '    "XZ": -1.0j,\n    "XY": 1.0j,'))
+T("C03", "twin-sub-as-negation", (OPS, "    def __sub__(self, other: Union[PauliRepresentation, complex]) -> \"PauliSum\":\n        return self + -1.0 * other\n\n    def __rsub__(self, other: Union[PauliRepresentation, complex]) -> \"PauliSum\":", "    def __sub__(self, other: Union[PauliRepresentation, complex]) -> \"PauliSum\":\n        return self + other * -1\n\n    def __rsub__(self, other: Union[PauliRepresentation, complex]) -> \"PauliSum\":"))
+T("C03", "twin-truediv-direct", (OPS, "    def __truediv__(self, other: complex) -> \"PauliSum\":\n        return self * (1.0 / other)", "    def __truediv__(self, other: complex) -> \"PauliSum\":\n        inverse = 1 / other\n        return self * inverse"))
+T("C03", "twin-mul-start-from-self", (OPS, "            result_term = self.copy(new_coefficient=1)", "            result_term = self.copy()"), (OPS, "            new_coeff = self.coefficient * other.coefficient", "            new_coeff = other.coefficient"))
+T("C03", "twin-frozenset-key", (OPS, "            key = term.operations\n            if key in like_terms:", "            key = frozenset(term._ops.items())\n            if key in like_terms:"))
+T("C03", "twin-exponentiation-even-first", (OPS, """    if power % 2 == 1:
+        return pauli_rep * _efficient_exponentiation(pauli_rep, power - 1)
+
+    intermediate_result = _efficient_exponentiation(pauli_rep, power // 2)
+    return intermediate_result * intermediate_result""", """    if power % 2 == 0:
+        half = _efficient_exponentiation(pauli_rep, power // 2)
+        return half * half
+
+    return _efficient_exponentiation(pauli_rep, power - 1) * pauli_rep"""))
